@@ -1031,6 +1031,20 @@ func c16Iter(si, n, brk, mode int) core.Result {
 		if cerr != nil || ok {
 			return core.Violation("contains", fmt.Sprintf("Contains(%s, absent) = %v, %v", desc, ok, cerr))
 		}
+		// containment is about the elements the traversal visits: a key that equals none of them is not contained
+		if isMap && mode != 3 {
+			for _, k := range keys {
+				isVal := false
+				for _, el := range vals {
+					if stick.Equal(el, k) {
+						isVal = true
+					}
+				}
+				if ok, _ := stick.Contains(v, k); ok && !isVal {
+					return core.Violation("contains", fmt.Sprintf("Contains(%s, %#v) is true: that is a key, none of the values %v", desc, k, vals))
+				}
+			}
+		}
 		// ... and so do the template operators 'in' / 'not in': for every element, every key and an absent value as the
 		// needle they give what Contains gives (core and twig environments)
 		needles := append(append([]stick.Value{}, vals...), "absent-element")
@@ -1122,6 +1136,17 @@ func (c c16Calc) Str(a int) string             { return "s" + itoa(a) }
 // c16Nested: method calls whose arguments are method calls, in a loop and twice in a row: every call receives its
 // own arguments (an argument buffer shared between an outer call and the calls in its arguments would not).
 func c16Nested(form int) core.Result {
+	if form >= 6 {
+		// attribute names written as numbers after a dot: the key is the text as written
+		m := map[string]stick.Value{"007": "a", "7": "b", "1.50": "c", "1.5": "d", "1": map[string]stick.Value{"0": "e", "50": "f"}, "12345678901234567890": "g", "0": "z"}
+		src := []string{"{{ m.007 }}|{{ m.7 }}|{{ m['007'] }}|{{ m.0 }}", "{{ m.12345678901234567890 }}|{{ m['12345678901234567890'] }}", "{{ m.1.50 }}|{{ m.1.0 }}|{{ m['1.50'] }}|{{ m['1.5'] }}"}[form-6]
+		want := []string{"a|b|a|z", "g|g", "c||c|d"}[form-6] // (m.1.50 is the key "1.50" as written; "1.0" does not exist)
+		out, err, pan := tryExec(stick.New(nil), src, map[string]stick.Value{"m": m})
+		if pan != "" || err != nil || out != want {
+			return core.Violation("method-args", fmt.Sprintf("%q with m = %v renders %q (%v %s), want %q", src, m, out, err, pan, want))
+		}
+		return core.Okay(true, out)
+	}
 	src := []string{
 		"{% for i in [1, 2, 3] %}{{ calc.Add(100, calc.Double(i)) }},{% endfor %}",
 		"{{ calc.Add(calc.Double(5), calc.Double(2)) }}|{{ calc.Add(calc.Double(5), calc.Double(2)) }}",
@@ -1281,7 +1306,7 @@ func c16Levels(tier string) []core.Level {
 			}
 		}},
 		{Name: "templates: {{ c[k] }} for every container x key; 6 templates whose method calls take method calls as arguments (in loops, repeated, as macro arguments)", Gen: func(emit func(core.Case)) {
-			for f := 0; f < 6; f++ {
+			for f := 0; f < 9; f++ {
 				emit(core.Case{Fam: "nested", N: []int{f}})
 			}
 			nc, nk := len(c16Containers()), len(c16Keys())
